@@ -1159,8 +1159,17 @@ func (dsc *dataStoreCommand) scan(cursor uint32, pattern string, count int, requ
 	})
 }
 
-func (dsc *dataStoreCommand) touch(keyName string) (exists bool) {
-	_, exists = dsc.getKeyObject(keyName)
+// touch counts the keys that exist (updating their access time), all under
+// one lock so that the count is that of a single moment.
+func (dsc *dataStoreCommand) touch(keyNames []string) (count int) {
+	dsc.lock()
+	defer dsc.unlock()
+
+	for _, keyName := range keyNames {
+		if _, exists := dsc.getKeyObjectUnlocked(keyName); exists {
+			count++
+		}
+	}
 	return
 }
 
